@@ -39,6 +39,14 @@ def operands(rng, m, n):
     h = 1 << (64 * n - 1)
     if h < m:
         c.add(h)
+    # Montgomery images of small negative numbers for moduli close to R = 2^(64 n): a = m - k (R - m); their squares leave
+    # the unreduced accumulator just above R (outer carry pending, top limb wrapping to 0 / 1)
+    R = 1 << (64 * n)
+    if 2 * m > R:
+        cc = R - m
+        for k in (1, 2, 3, rng.randrange(1, 1 << 20)):
+            c.add(m - k * cc)
+        c.add(2 * m - R)
     return sorted(x for x in c if 0 <= x < m)
 
 
